@@ -498,6 +498,10 @@ class Scripts:
                 elif c < 0.25:
                     self.emit('lora_set_implicit_header NULL')
                     implicit = None
+                elif c < 0.35:
+                    # the other call that selects explicit-header mode
+                    self.emit('lora_tx_set_explicit_header %d %d' % (r.randint(0, 1), r.choice([1, 2, 3, 4])))
+                    implicit = None
                 n_b = implicit if implicit else r.choice([1, 2, 3, 64, 255, r.randint(1, 255)])
                 if implicit and r.random() < 0.9:
                     # in implicit-header mode the chip reports the configured length in RxNbBytes
@@ -521,7 +525,15 @@ class Scripts:
             self.begin('loratx')
             self.prologue(LORA, rand_chip=r.random() < 0.7)
             self.emit('lora_reset_fifo')
-            for _ in range(r.randint(1, 6)):
+            agreed = None
+            for _ in range(r.randint(1, 8)):
+                c = r.random()
+                if c < 0.2:
+                    agreed = r.choice([1, 8, 16, 255])
+                    self.emit('lora_set_implicit_header %d 1 2' % agreed)
+                elif c < 0.3:
+                    self.emit(r.choice(['lora_set_implicit_header NULL', 'lora_tx_set_explicit_header 1 2']))
+                    agreed = None
                 if r.random() < 0.3:
                     # a reception in between moves the FIFO pointer
                     self.emit('set_opmod 5 0x80')
@@ -529,10 +541,16 @@ class Scripts:
                     self.emit('irq')
                     self.emit('set_opmod 1 0x80')
                 n_b = r.choice([0, 1, 2, 255, r.randint(1, 255), r.randint(1, 255)])
+                if agreed:
+                    # alternate another length with the agreed one (the register must follow the call)
+                    turn = getattr(self, '_turn', 0)
+                    self._turn = turn + 1
+                    if turn % 2 == 1 or r.random() < 0.2:
+                        n_b = agreed
                 data = self.api.bytes_hex(n_b)
                 self.emit('lora_tx_set_for_transmission %s' % data)
-                self.emit('#= loratx %s' % data)
                 self.emit('dump')
+                self.emit('#= loratx %s' % data)
                 self.emit('set_opmod 3 0x80')
                 fl = r.choice([0x08, 0x08, 0x08, 0x0a, 0x88, 0x00, 0x02])
                 self.emit('env loraflags %d' % fl)
@@ -588,6 +606,16 @@ class Scripts:
                     self.emit('env loraflags 2')
                     self.emit('irq')
                     self.emit('#= hop')
+                if r.random() < 0.3:
+                    # another list (often shorter) registered while the packet is still running
+                    ln = r.choice([1, 2, max(1, ln // 2), r.randint(1, 255)])
+                    fl = [r.randint(137000000, 1020000000) for _ in range(ln)]
+                    self.emit('lora_set_frequency_hopping %d %d %s' % (r.randint(1, 255), ln, ','.join(map(str, fl))))
+                    self.emit('#= relist %s' % ','.join(map(str, fl)))
+                    for _ in range(r.choice([1, 2, ln + 1])):
+                        self.emit('env loraflags 2')
+                        self.emit('irq')
+                        self.emit('#= hop')
                 end = r.choice(['rx', 'tx', 'crc', 'rxhop', 'txhop'])
                 if end in ('rx', 'rxhop'):
                     self.emit('env lorarx %d 0 %s' % (r.randint(0, 255), self.api.bytes_hex(r.randint(1, 20))))
